@@ -23,6 +23,7 @@ condition and its effects on the node list.
 """
 import ast
 import glob
+import re
 
 from .. import poly
 from ..interp import (Interp, Hooks, Outcome, Opaque, Str, Slot, Tup, Const, Cmp, IsNone, Truthy,
@@ -31,8 +32,10 @@ from ..interp import (Interp, Hooks, Outcome, Opaque, Str, Slot, Tup, Const, Cmp
 from ..poly import Sym
 from ..model import AnalysisError, ModuleInfo, FuncInfo, Program
 from .. import purity
+from ..cutpoints import CutHooks, CutPoints, Versioned, Segment, labels_of, map_value
 
-S_P = Opaque('param:s_p', (), 'list')
+SPV = Versioned('param:s_p')
+S_P = SPV.at(0)
 FLAT = Sym.var('flat')
 I = Sym.var('i')
 ROLES_ONE = ('P0', 'M1', 'M4', 'M')
@@ -54,50 +57,35 @@ def node_field(v):
     return None
 
 
-class OneIteration(Hooks):
-    """`while True:` loops are interpreted for one iteration; back edges are recorded, not
-    followed."""
+class C10Hooks(CutHooks):
+    """Cut-point hooks for subdivideCubicPath: the flatness predicate is an uninterpreted
+    predicate, the de Casteljau split returns role-labelled points, and every store through the
+    node list starts a new version of it (so a piece read before a store is not mistaken for the
+    piece after it)."""
 
-    def __init__(self, split_qual='ink_extensions.bezmisc.beziersplitatt'):
+    def __init__(self, fn, split_qual='ink_extensions.bezmisc.beziersplitatt'):
+        super().__init__(fn, [SPV])
         self.split_qual = split_qual
-        self.back = []          # (loop line, state)
-        self.split_calls = []   # (piece value, t value, line)
-        self.pred_calls = []    # (args, line)
-        self.depth = 0
-
-    def loop(self, interp, node, st):
-        if not isinstance(node, ast.While):
-            return None
-        t = None
-        if isinstance(node.test, ast.Constant):
-            t = bool(node.test.value)
-        if t is not True:
-            raise AnalysisError('loop at line %d of subdivideCubicPath is not `while True`; the '
-                                'one-iteration rule cannot conclude' % node.lineno)
-        res = []
-        for out in interp.exec_block(node.body, st):
-            if out.kind in ('fall', 'continue'):
-                self.back.append((node.lineno, out.state))
-            elif out.kind == 'break':
-                res.append(Outcome('fall', None, out.state))
-            else:
-                res.append(out)
-        return res
+        self.n_pred = 0
+        self.n_split = 0
 
     def call(self, interp, target, args, kwargs, st, node):
         if isinstance(target, FuncRef) and target.qual == 'plot_utils.points_in_tolerance':
-            self.pred_calls.append((tuple(args), node.lineno))
+            self.n_pred += 1
+            if kwargs:
+                args = list(interp.bind_positional(target.fn, args, kwargs))
             return [(Pred('flat-enough', tuple(args)), st.effect(
                 Effect('pred', 'points_in_tolerance', tuple(args), node.lineno,
                        interp.cur.qualname)))]
         if isinstance(target, ExtRef) and target.dotted == self.split_qual:
-            piece = args[0] if args else NONE
+            self.n_split += 1
+            piece = args[0] if args else kwargs.get('xy', NONE)
             t = args[1] if len(args) > 1 else kwargs.get('t', NONE)
-            self.split_calls.append((piece, t, node.lineno))
             one = Tup(tuple(role(r, piece) for r in ROLES_ONE))
             two = Tup(tuple(role(r, piece) for r in ROLES_TWO))
-            return [(Tup((one, two)), st)]
-        return None
+            return [(Tup((one, two)), st.effect(Effect('split', 'beziersplitatt', (piece, t),
+                                                       node.lineno, interp.cur.qualname)))]
+        return self.mutating_call(interp, target, args, st, node)
 
 
 def dependency_roles(ck):
@@ -149,119 +137,229 @@ def idx_form(s):
     return None
 
 
-def analyse(ck, prog):
-    fn = prog.func('plot_utils.subdivideCubicPath')
-    q = fn.qualname
-    if fn.params[:2] != ['s_p', 'flat']:
-        raise AnalysisError('subdivideCubicPath signature changed')
-    d = fn.defaults().get(fn.params[2]) if len(fn.params) > 2 else None
-    ck.ob('C10-D3-start-index', q, isinstance(d, ast.Constant) and d.value == 1,
-          '%s: the default start index is not 1 (piece i is the one ending at node i)' % q,
-          fn.loc(), key=q + '::default-i')
-    hk = OneIteration()
-    it = Interp(prog, hk)
-    outs = it.run(fn, [], {'s_p': S_P, 'flat': FLAT, fn.params[2]: I})
-    ck.saw('functions', '%s @ %s: %d exits, %d back edges in one iteration'
-           % (q, fn.loc(), len(outs), len(hk.back)))
-    LEN = Sym.func('LEN', Sym.var('<param:s_p>'))
-    # ---- exits: return only when i >= len(s_p)
-    n_ret = 0
-    for o in outs:
-        if o.kind == 'raise':
-            ck.ob('C10-D4-exits', q, False, '%s raises %s' % (q, o.value), fn.loc(), key=q + '::raises')
-            continue
-        n_ret += 1
-        conds = [(c, t) for c, t in o.state.path if isinstance(c, Cmp)]
-        ok = any(isinstance(c.a, Sym) and c.op == '>=' and t and c.a == I - LEN or
-                 (c.op == '<' and not t and c.a == I - LEN) for c, t in conds)
-        stores = [e for e in o.state.effects if e.kind in ('store', 'del') or
-                  (e.kind == 'call' and isinstance(e.target, Bound))]
-        ck.ob('C10-D4-returns-at-end', q, ok and not stores and not any(
-            e.kind == 'pred' for e in o.state.effects),
-            '%s returns on a path that does not establish i >= len(s_p) (or after touching the '
-            'list): pieces after index i are left untested' % q, fn.loc(), key=q + '::early-return')
-    ck.floor('return paths', n_ret, 1)
+def want_piece_at(sp, i):
+    return Tup(tuple(Opaque('item', (Opaque('item', (sp, i + off)), Sym.const(f)))
+                     for off, f in ((-1, 1), (-1, 2), (0, 0), (0, 1))))
 
-    # ---- back edges
-    n_adv = n_split = 0
-    for line, st in hk.back:
-        i_after = st.env.get(fn.params[2])
+
+def len_of(sp):
+    from ..interp import _wrap
+    return Sym.func('LEN', _wrap(sp))
+
+
+def shift_index(v, k):
+    """Express a value computed with index symbol i in terms of the new index i' = i + k."""
+    if k == 0:
+        return v
+    stale = []
+
+    def f_var(name):
+        if name == 'i':
+            return I - k
+        if re.search(r'(?<![\w.])i(?![\w(])', name):
+            stale.append(name)
+            return Sym.var('<stale:%s>' % name)
+        return None
+    return map_value(v, lambda l: l, f_var)
+
+
+def flat_domain_excluded(path):
+    """True if a path condition that only mentions `flat` is false for every positive flatness
+    sampled (the path lies outside the property's domain flat > 0)."""
+    from fractions import Fraction
+    for c, t in path:
+        if isinstance(c, Cmp) and isinstance(c.a, Sym) and isinstance(c.b, Sym):
+            d = c.a - c.b
+            names = {a[1] for a in d.all_atoms() if a[0] == 'v'}
+            if names != {'flat'} or any(a[0] == 'f' for a in d.all_atoms()):
+                continue
+            holds = []
+            for val in (Fraction(1, 10 ** 9), Fraction(1, 100), 1, 7, 10 ** 9):
+                try:
+                    x = d.evaluate({'flat': Fraction(val)})
+                except Exception:
+                    holds = [True]
+                    break
+                r = {'<': x < 0, '<=': x <= 0, '>': x > 0, '>=': x >= 0, '==': x == 0,
+                     '!=': x != 0}[c.op]
+                holds.append(r == t)
+            if not any(holds):
+                return True
+    return False
+
+
+class SegmentJudge:
+    """Obligations of C10-D1..D4 on one segment (start: a cut point with index I and list version
+    0; end: a cut point or an exit)."""
+
+    def __init__(self, ck, fn, iname):
+        self.ck, self.fn, self.q, self.iname = ck, fn, fn.qualname, iname
+        self.n_adv = self.n_split = self.n_ret = 0
+        self.undecided = []
+
+    def ob(self, rule, where, ok, detail, key, involved=()):
+        """A failed obligation that rests on a stale (pre-store or loop-carried but not
+        re-established) value is not a verdict: the rule cannot conclude."""
+        if not ok and any(SPV.is_stale(v) for v in involved):
+            self.undecided.append('%s at %s: %s' % (rule, where, detail))
+            return
+        self.ck.ob(rule, where, ok, detail, self.fn.loc(), key=key)
+
+    def judge(self, seg, src_name):
+        q, st = self.q, seg.state
+        where = '%s::%s->%s' % (q, src_name, seg.kind if seg.kind != 'arrive'
+                                else 'loop@%d' % seg.dest.lineno)
+        if seg.kind == 'raise':
+            if flat_domain_excluded(st.path):
+                self.ck.saw('paths', '%s raises %s for flat <= 0 (outside the domain)'
+                            % (where, seg.dest))
+                return
+            self.ck.ob('C10-D4-exits', q, False, '%s raises %s' % (q, seg.dest), self.fn.loc(),
+                       key=q + '::raises')
+            return
+        final = SPV.current(st)
+        if final is None:
+            raise AnalysisError('%s: the node-list parameter is rebound (%s); in-place semantics '
+                                'cannot be followed' % (where, st.env.get('s_p')))
+        i_after = st.env.get(self.iname)
+        k = idx_form(i_after) if isinstance(i_after, Sym) else None
         stores = [e for e in st.effects if e.kind in ('store', 'del') or
-                  (e.kind == 'call' and isinstance(e.target, Bound) and e.target.obj == S_P)]
-        preds = [e for e in st.effects if e.kind == 'pred']
+                  (e.kind == 'call' and isinstance(e.target, Bound)
+                   and SPV.root_version(e.target.obj) is not None)]
+        splits = [e for e in st.effects if e.kind == 'split']
         pred_truth = [(c, t) for c, t in st.path if isinstance(c, Pred) and c.name == 'flat-enough'] + \
-                     [(c.c, not t) for c, t in st.path if isinstance(c, NotC) and isinstance(c.c, Pred)]
-        split = bool(stores)
-        if not split:
-            n_adv += 1
-            ok = isinstance(i_after, Sym) and i_after == I + 1 and len(pred_truth) == 1 and \
-                pred_truth[0][1] is True
-            ck.ob('C10-D4-advance-only-when-flat', '%s::advance@%d' % (q, line), ok,
-                  '%s moves on (i -> %s) on a path where the flatness predicate %s: a piece is '
-                  'accepted without having been found flat' % (
-                      q, i_after, 'was not consulted' if not pred_truth else
-                      'held %s' % [t for _, t in pred_truth]), fn.loc(),
-                  key=q + '::advance')
-            continue
-        n_split += 1
-        # D4: after a split i is unchanged and the split happened because the piece was not flat
-        ck.ob('C10-D4-split-retests', '%s::split@%d' % (q, line),
-              isinstance(i_after, Sym) and i_after == I,
-              '%s continues with i = %s after splitting piece i: both halves must be re-tested '
-              'from the same index' % (q, i_after), fn.loc(), key=q + '::split-advances')
-        ck.ob('C10-D4-split-only-when-not-flat', '%s::split@%d' % (q, line),
-              len(pred_truth) == 1 and pred_truth[0][1] is False,
-              '%s splits on a path where the flatness predicate was %s (expected: consulted '
-              'once, with the caller\'s tolerance, and false)' % (
-                  q, [t for _, t in pred_truth] or 'not consulted'), fn.loc(),
-              key=q + '::split-condition')
-        # D1: stores
-        piece = hk.split_calls[-1][0] if hk.split_calls else None
+                     [(c.c, not t) for c, t in st.path if isinstance(c, NotC) and isinstance(c.c, Pred)
+                      and c.c.name == 'flat-enough']
+        piece0 = want_piece_at(SPV.at(0), I)
+        want_args = (piece0, FLAT)
+
+        # every decision taken on the predicate must be about the current piece and tolerance
+        for c, t in pred_truth:
+            self.ob('C10-D4-predicate-call', where, tuple(c.args) == want_args,
+                    '%s decides on the flatness predicate applied to %r: it must receive the '
+                    'current piece (s_p[i-1][1], s_p[i-1][2], s_p[i][0], s_p[i][1]) and the '
+                    'caller\'s flatness unchanged' % (q, c.args), q + '::predicate-call',
+                    involved=c.args)
+
+        if seg.kind == 'return':
+            self.n_ret += 1
+            lf = len_of(SPV.at(final))
+            ok = False
+            if isinstance(i_after, Sym):
+                for c, t in st.path:
+                    if not isinstance(c, Cmp) or not isinstance(c.a, Sym):
+                        continue
+                    lhs = c.a - c.b if isinstance(c.b, Sym) else c.a
+                    if lhs == i_after - lf and ((c.op == '>=' and t) or (c.op == '<' and not t)):
+                        ok = True
+                    if lhs == lf - i_after and ((c.op == '<=' and t) or (c.op == '>' and not t)):
+                        ok = True
+            self.ob('C10-D4-returns-at-end', where, ok,
+                    '%s returns on a path that does not establish i >= len(s_p) for the final '
+                    'index and list: pieces after index i are left untested' % q,
+                    q + '::early-return', involved=[i_after] + [c for c, _ in st.path])
+
+        if not stores and not splits:
+            if k == 0:
+                return 'stay'
+            self.n_adv += 1
+            ok = k == 1 and len(pred_truth) == 1 and pred_truth[0][1] is True
+            self.ob('C10-D4-advance-only-when-flat', where, ok,
+                    '%s moves on (i -> %s) on a path where the flatness predicate %s: a piece is '
+                    'accepted without having been found flat (or is skipped)' % (
+                        q, i_after, 'was not consulted' if not pred_truth else
+                        'held %s' % [t for _, t in pred_truth]), q + '::advance',
+                    involved=[i_after] + [c for c, _ in pred_truth])
+            return 'advance'
+
+        # ---- a segment that touches the list: exactly one split of the current piece
+        self.n_split += 1
+        if len(splits) > 1:
+            raise AnalysisError('%s performs %d splits between two loop heads; the role table is '
+                                'per single split' % (where, len(splits)))
+        self.ob('C10-D4-split-retests', where, k == 0,
+                '%s continues with i = %s after splitting piece i: both halves must be re-tested '
+                'from the same index' % (q, i_after), q + '::split-advances', involved=[i_after])
+        self.ob('C10-D4-split-only-when-not-flat', where,
+                len(pred_truth) == 1 and pred_truth[0][1] is False,
+                '%s splits on a path where the flatness predicate was %s (expected: consulted '
+                'once, with the caller\'s tolerance, and false)' % (
+                    q, [t for _, t in pred_truth] or 'not consulted'), q + '::split-condition',
+                involved=[c for c, _ in pred_truth])
+        piece = splits[0].args[0] if splits else None
+        if splits:
+            t = splits[0].args[1]
+            self.ob('C10-D1-piece', where, piece == piece0,
+                    '%s splits %r; the piece ending at node i is (s_p[i-1][1], s_p[i-1][2], '
+                    's_p[i][0], s_p[i][1])' % (q, piece), q + '::piece', involved=[piece])
+            dyadic = isinstance(t, Sym) and t.is_const() and 0 < t.const_value() < 1 and \
+                (t.const_value().denominator & (t.const_value().denominator - 1)) == 0
+            self.ob('C10-D2-dyadic', where, dyadic,
+                    '%s splits at parameter %s; pieces must be restrictions to dyadic parameter '
+                    'intervals (k/2^m, 0 < t < 1)' % (q, t), q + '::dyadic', involved=[t])
+            half = isinstance(t, Sym) and t.is_const() and t.const_value() * 2 == 1
+            self.ob('C10-D2-role-parameter', where, half,
+                    '%s splits at %s; the role table (M4, M, M5 on the curve, M1/M3 as new outer '
+                    'handles) was established for t = 1/2 only' % (q, t), q + '::half',
+                    involved=[t])
         found = {'out': None, 'in': None, 'insert': None, 'other': []}
+        inserted = False      # once the new node sits at index i, old node i is at i + 1
+        all_vals = []
         for e in stores:
             if e.kind == 'store' and isinstance(e.target, tuple) and e.target[0] == 'item':
                 obj, idx = e.target[1], e.target[2]
                 val = e.args[0]
-                if obj == S_P and isinstance(idx, tuple) and idx and idx[0] == 'slice':
-                    found['insert'] = ('slice', idx[1], idx[2], idx[3], val)
-                    continue
-                if isinstance(obj, Opaque) and obj.label == 'item' and obj.args[0] == S_P and \
+                all_vals.append(val)
+                if SPV.version_of(obj) is not None and isinstance(idx, tuple) and idx and \
+                        idx[0] == 'slice':
+                    if found['insert'] is None:
+                        found['insert'] = ('slice', idx[1], idx[2], idx[3], val)
+                        inserted = True
+                        continue
+                if isinstance(obj, Opaque) and obj.label == 'item' and \
+                        SPV.version_of(obj.args[0]) is not None and \
                         isinstance(obj.args[1], Sym) and isinstance(idx, Sym) and idx.is_const():
                     node_off = idx_form(obj.args[1])
                     fld = int(idx.const_value())
                     if (node_off, fld) == (-1, 2) and found['out'] is None:
                         found['out'] = val
                         continue
-                    if (node_off, fld) == (0, 0) and found['in'] is None:
+                    if (node_off, fld) == ((1 if inserted else 0), 0) and found['in'] is None:
                         found['in'] = val
                         continue
-                found['other'].append('s_p%s at line %d' % (repr(idx), e.line))
-            elif e.kind == 'call' and e.target.name == 'insert' and len(e.args) == 2:
+                found['other'].append('s_p%s[%s] at line %d' % (
+                    '[%s]' % (obj.args[1],) if isinstance(obj, Opaque) and obj.label == 'item'
+                    else '', idx, e.line))
+            elif e.kind == 'call' and e.target.name == 'insert' and len(e.args) == 2 and \
+                    SPV.version_of(e.target.obj) is not None and found['insert'] is None:
                 found['insert'] = ('insert', e.args[0], None, None, Tup((e.args[1],), 'list'))
+                all_vals.append(e.args[1])
+                inserted = True
             else:
-                found['other'].append('%s at line %d' % (e.kind, e.line))
-        where = '%s::split@%d' % (q, line)
+                found['other'].append('%s at line %d' % (
+                    e.kind if e.kind != 'call' else 'call .%s()' % e.target.name, e.line))
 
         def is_role(v, name):
             return isinstance(v, Opaque) and v.label == 'role:' + name and v.args == (piece,)
-        ck.ob('C10-D1-out-handle', where, is_role(found['out'], 'M1'),
-              '%s: after a split the out-handle of node i-1 (s_p[i-1][2]) is set to %r; it must '
-              'become M1, the first inner control point of the first half (one[1])'
-              % (q, found['out']), fn.loc(), key=q + '::out-handle')
-        ck.ob('C10-D1-in-handle', where, is_role(found['in'], 'M3'),
-              '%s: after a split the in-handle of node i (s_p[i][0]) is set to %r; it must become '
-              'M3, the last inner control point of the second half (two[2])' % (q, found['in']),
-              fn.loc(), key=q + '::in-handle')
+        self.ob('C10-D1-out-handle', where, is_role(found['out'], 'M1'),
+                '%s: after a split the out-handle of node i-1 (s_p[i-1][2]) is set to %r; it must '
+                'become M1, the first inner control point of the first half (one[1])'
+                % (q, found['out']), q + '::out-handle', involved=[found['out']])
+        self.ob('C10-D1-in-handle', where, is_role(found['in'], 'M3'),
+                '%s: after a split the in-handle of old node i (s_p[i][0] before the insertion) is '
+                'set to %r; it must become M3, the last inner control point of the second half '
+                '(two[2])' % (q, found['in']), q + '::in-handle', involved=[found['in']])
         ins = found['insert']
         ok_node = False
         if ins is not None and isinstance(ins[4], Tup) and len(ins[4].items) == 1 and \
                 isinstance(ins[4].items[0], Tup) and len(ins[4].items[0].items) == 3:
             a, b, c = ins[4].items[0].items
             ok_node = is_role(a, 'M4') and is_role(b, 'M') and is_role(c, 'M5')
-        ck.ob('C10-D1-inserted-node', where, ok_node,
-              '%s: the node inserted by a split is %r; it must be [M4, M, M5] = [one[2], one[3] '
-              '(= two[0]), two[1]] - the curve point at the split parameter with its two new '
-              'handles' % (q, ins[4] if ins else None), fn.loc(), key=q + '::inserted-node')
+        self.ob('C10-D1-inserted-node', where, ok_node,
+                '%s: the node inserted by a split is %r; it must be [M4, M, M5] = [one[2], one[3] '
+                '(= two[0]), two[1]] - the curve point at the split parameter with its two new '
+                'handles' % (q, ins[4] if ins else None), q + '::inserted-node',
+                involved=[ins[4]] if ins else [])
         ok_pos = False
         if ins is not None:
             if ins[0] == 'slice':
@@ -269,43 +367,125 @@ def analyse(ck, prog):
                 ok_pos = isinstance(lo, Sym) and lo == I and step == NONE and isinstance(hi, Sym) \
                     and hi.is_const() and hi.const_value() <= 1
                 if isinstance(hi, Sym) and hi == I:
-                    ok_pos = isinstance(lo, Sym) and lo == I
+                    ok_pos = isinstance(lo, Sym) and lo == I and step == NONE
             else:
                 ok_pos = isinstance(ins[1], Sym) and ins[1] == I
-        ck.ob('C10-D3-insertion', where, ok_pos,
-              '%s: the new node is stored with %s; it must be inserted at index i without '
-              'overwriting a node (s_p[i:h] with h <= 1 <= i, s_p[i:i], or insert(i, .))'
-              % (q, ins[:4] if ins else 'no insertion'), fn.loc(), key=q + '::insertion')
-        ck.ob('C10-D1-nothing-else-stored', where, not found['other'],
-              '%s: a split also modifies %s; original nodes and outer handles must survive'
-              % (q, found['other']), fn.loc(), key=q + '::other-stores')
-    ck.floor('advance back edges', n_adv, 1)
-    ck.floor('split back edges', n_split, 1)
+        self.ob('C10-D3-insertion', where, ok_pos,
+                '%s: the new node is stored with %s; it must be inserted at index i without '
+                'overwriting a node (s_p[i:h] with h <= 1 <= i, s_p[i:i], or insert(i, .))'
+                % (q, ins[:4] if ins else 'no insertion'), q + '::insertion',
+                involved=list(ins[1:4]) if ins else [])
+        self.ob('C10-D1-nothing-else-stored', where, not found['other'],
+                '%s: a split also modifies %s; original nodes and outer handles must survive'
+                % (q, found['other']), q + '::other-stores')
+        return 'split'
 
-    # ---- the piece and the predicate / split arguments
-    want_piece = Tup(tuple(Opaque('item', (Opaque('item', (S_P, I + off)), Sym.const(f)))
-                           for off, f in ((-1, 1), (-1, 2), (0, 0), (0, 1))))
-    for args, line in hk.pred_calls:
-        ok = len(args) == 2 and args[0] == want_piece and args[1] == FLAT
-        ck.ob('C10-D4-predicate-call', '%s::pred@%d' % (q, line), ok,
-              '%s calls the flatness predicate with %r: it must receive the current piece '
-              '(s_p[i-1][1], s_p[i-1][2], s_p[i][0], s_p[i][1]) and the caller\'s flatness '
-              'unchanged' % (q, args), fn.loc(), key=q + '::predicate-call')
-    for piece, t, line in hk.split_calls:
-        ck.ob('C10-D1-piece', '%s::split@%d' % (q, line), piece == want_piece,
-              '%s splits %r; the piece ending at node i is (s_p[i-1][1], s_p[i-1][2], s_p[i][0], '
-              's_p[i][1])' % (q, piece), fn.loc(), key=q + '::piece')
-        dyadic = isinstance(t, Sym) and t.is_const() and 0 < t.const_value() < 1 and \
-            (t.const_value().denominator & (t.const_value().denominator - 1)) == 0
-        ck.ob('C10-D2-dyadic', '%s::split@%d' % (q, line), dyadic,
-              '%s splits at parameter %s; pieces must be restrictions to dyadic parameter '
-              'intervals (k/2^m, 0 < t < 1)' % (q, t), fn.loc(), key=q + '::dyadic')
-        half = isinstance(t, Sym) and t.is_const() and t.const_value() * 2 == 1
-        ck.ob('C10-D2-role-parameter', '%s::split@%d' % (q, line), half,
-              '%s splits at %s; the role table (M4, M, M5 on the curve, M1/M3 as new outer '
-              'handles) was established for t = 1/2 only' % (q, t), fn.loc(), key=q + '::half')
-    ck.floor('predicate calls', len(hk.pred_calls), 1)
-    ck.floor('split calls', len(hk.split_calls), 1)
+
+STALE_PREFIX = 'stale:'
+
+
+def analyse(ck, prog):
+    fn = prog.func('plot_utils.subdivideCubicPath')
+    q = fn.qualname
+    if fn.params[:2] != ['s_p', 'flat'] or len(fn.params) < 3:
+        raise AnalysisError('subdivideCubicPath signature changed')
+    iname = fn.params[2]
+    d = fn.defaults().get(iname)
+    ck.ob('C10-D3-start-index', q, isinstance(d, ast.Constant) and d.value == 1,
+          '%s: the default start index is not 1 (piece i is the one ending at node i)' % q,
+          fn.loc(), key=q + '::default-i')
+    hk = C10Hooks(fn)
+    cp = CutPoints(prog, fn, hk)
+    entry_env = {'s_p': SPV.at(0), 'flat': FLAT, iname: I}
+
+    def normalised_env(seg):
+        st = seg.state
+        final = SPV.current(st)
+        i_after = st.env.get(iname)
+        k = idx_form(i_after) if isinstance(i_after, Sym) else None
+        env = {}
+        for name, v in st.env.items():
+            if name == iname:
+                continue
+            if final is None or k is None:
+                env[name] = Opaque(STALE_PREFIX + name)
+                continue
+            env[name] = shift_index(SPV.normalise(v, final), k)
+        return env
+
+    templates = {}     # id(head) -> {name: value}
+
+    def run_all():
+        segs = [(None, s) for s in cp.from_entry(entry_env)]
+        for h in cp.heads:
+            t = templates.get(id(h))
+            if t is None:
+                continue
+            env = dict(t)
+            env[iname] = I
+            segs.extend((h, s) for s in cp.from_head(h, State(env=env)))
+        return segs
+
+    for rounds in range(24):
+        segs = run_all()
+        changed = False
+        for src, seg in segs:
+            if seg.kind != 'arrive':
+                continue
+            env = normalised_env(seg)
+            t = templates.get(id(seg.dest))
+            if t is None:
+                templates[id(seg.dest)] = env
+                changed = True
+                continue
+            for name in set(t) | set(env):
+                a, b = t.get(name), env.get(name)
+                if a == b:
+                    continue
+                stale = Opaque(STALE_PREFIX + name)
+                if a != stale:
+                    t[name] = stale
+                    changed = True
+        if not changed:
+            break
+    else:
+        raise AnalysisError('loop-carried values of %s did not stabilise' % q)
+
+    unreached = [h.lineno for h in cp.heads if id(h) not in templates]
+    for h in cp.heads:
+        t = templates.get(id(h), {})
+        carried = sorted(n for n, v in t.items() if not SPV.is_stale(v) and n not in ('s_p', 'flat'))
+        stale = sorted(n for n, v in t.items() if SPV.is_stale(v))
+        ck.saw('functions', '%s loop head at line %d: carried %s; not re-established %s'
+               % (q, h.lineno, carried or '-', stale or '-'))
+    if unreached:
+        ck.saw('functions', '%s: loop heads at lines %s are unreachable' % (q, unreached))
+
+    judge = SegmentJudge(ck, fn, iname)
+    kinds = {}
+    for src, seg in segs:
+        name = 'entry' if src is None else 'loop@%d' % src.lineno
+        r = judge.judge(seg, name)
+        kinds[(name, seg.kind, getattr(seg.dest, 'lineno', None))] = r
+        # a segment that comes back to where it started having changed nothing never ends
+        if r == 'stay' and seg.kind == 'arrive' and src is seg.dest:
+            env = normalised_env(seg)
+            t = templates[id(src)]
+            if all(env.get(n) == t.get(n) for n in set(env) | set(t)):
+                ck.ob('C10-D4-progress', '%s::%s' % (q, name), False,
+                      '%s: a path from the loop head at line %d back to itself changes neither i '
+                      'nor the list nor any local: the loop cannot end' % (q, src.lineno),
+                      fn.loc(), key=q + '::livelock')
+    ck.saw('functions', '%s @ %s: %d loop heads, %d segments (%d advance, %d split, %d return)'
+           % (q, fn.loc(), len(cp.heads), len(segs), judge.n_adv, judge.n_split, judge.n_ret))
+    if judge.undecided and not ck.violations:
+        raise AnalysisError('C10 cannot conclude: %s' % '; '.join(judge.undecided[:3]))
+    ck.floor('loop heads', len(cp.heads), 1)
+    ck.floor('return paths', judge.n_ret, 1)
+    ck.floor('advance segments', judge.n_adv, 1)
+    ck.floor('split segments', judge.n_split, 1)
+    ck.floor('predicate calls', hk.n_pred, 1)
+    ck.floor('split calls', hk.n_split, 1)
 
 
 class Renamed:
